@@ -297,3 +297,7 @@ def run(ctx):
     r1_limits(ctx)
     r2_expiry(ctx)
     r3_books(ctx)
+
+
+from .selftest import for_families as _ff  # noqa: E402
+selftest = _ff(['gate', 'lock'])
